@@ -206,13 +206,17 @@ fn replay_via(line: &Value, e: &Embedding, want: &QWant, rep: &mut Report, via_c
             Value::Array(_) => rat(&line["quantile"]),
             _ => return,
         };
-        let (xe, _) = emb_rat(e, exp);
+        let xe = emb_rat(e, exp);
         let sm = &line["small"];
         let whole = sm["whole"].as_bool().unwrap();
-        let (xlo, _) = emb_rat(e, rat(&sm["lo"]));
-        let (xhi, _) = emb_rat(e, rat(&sm["hi"]));
-        let tol = |s: f64| 4.0 * U * s.abs().max(xmax);
-        let check = |rep: &mut Report, pp: f64, accept: &[f64], label: &str| {
+        let xlo = emb_rat(e, rat(&sm["lo"]));
+        let xhi = emb_rat(e, rat(&sm["hi"]));
+        // among denormals the spacing is absolute (2^-1074) and 4u * x underflows to nothing: a value that
+        // is representable must be returned exactly (the midpoint of two equal observations is that
+        // observation), one that is not (the midpoint of neighbouring denormals) to within one spacing
+        let denormal = e.b < 1e-300 && e.a == 0.0;
+        let tol = |a: (f64, bool)| if denormal { if a.1 { 0.0 } else { 5e-324 } } else { 4.0 * U * a.0.abs().max(xmax) };
+        let check = |rep: &mut Report, pp: f64, accept: &[(f64, bool)], label: &str| {
             let mut qt = Quantile::new(pp);
             for &x in &xs {
                 qt.add(x);
@@ -226,8 +230,8 @@ fn replay_via(line: &Value, e: &Embedding, want: &QWant, rep: &mut Report, via_c
             }
             let got = qt.quantile();
             rep.evaluations += 1;
-            if !accept.iter().any(|&a| close(got, a, tol(a))) {
-                viol(rep, "C07", e, line, "quantile", format!("{label}: quantile() = {} with p = {} but the exact sample quantile is {} (admissible: {:?})", fmt_f(got), fmt_f(pp), fmt_f(accept[0]), accept), json!({"p_f64": pp}));
+            if !accept.iter().any(|&a| close(got, a.0, tol(a))) {
+                viol(rep, "C07", e, line, "quantile", format!("{label}: quantile() = {} with p = {} but the exact sample quantile is {} (admissible: {:?})", fmt_f(got), fmt_f(pp), fmt_f(accept[0].0), accept.iter().map(|a| a.0).collect::<Vec<_>>()), json!({"p_f64": pp}));
             }
         };
         if p_exact {
@@ -404,7 +408,7 @@ fn replay_via(line: &Value, e: &Embedding, want: &QWant, rep: &mut Report, via_c
 }
 
 /// admissible values one ulp above the boundary p = k/n
-fn upper_accept(_xs: &[f64], _p: Rat, _cnt: usize, mid_set: &[f64; 3]) -> Vec<f64> {
+fn upper_accept(_xs: &[f64], _p: Rat, _cnt: usize, mid_set: &[(f64, bool); 3]) -> Vec<(f64, bool)> {
     mid_set.to_vec()
 }
 
